@@ -32,7 +32,7 @@ SEMANTIC = [
     "assertion failed", "possible arithmetic underflow/overflow", "decreases not satisfied",
     "possible division by zero", "could not prove termination", "assert_by", "loop invariant",
     "possible bit shift underflow/overflow", "unreachable", "constructed value may fail",
-    "failed to satisfy", "not satisfied",
+    "failed to satisfy", "not satisfied", "unable to prove",
 ]
 RLIMIT = ["Resource limit (rlimit) exceeded", "rlimit"]
 
@@ -307,7 +307,7 @@ def _digest(res, run, m):
                 if e and e["obl"]:
                     obl = e["obl"]
                     break
-        if not obl and d["message"].startswith("postcondition not satisfied"):
+        if not obl and (d["message"].startswith("postcondition not satisfied") or "post-condition of closure" in d["message"]):
             for s in spans:
                 fn = _fn_of_line(m, s["line_start"])
                 if fn and fn in getattr(res, "ext_post", {}):
